@@ -85,6 +85,7 @@ type G struct {
 	MaxBlob int
 	pool   []*Blob // blobs available for sharing
 	Alg    string
+	NoExt  bool // never generate external (URL) layers
 }
 
 func New(t *simrt.Tape) *G { return &G{T: t, MaxBlob: 600, Alg: "sha256"} }
@@ -195,7 +196,11 @@ func (g *G) Image(docker bool) *Node {
 	n.Blobs = append(n.Blobs, cfg)
 	var layers []Desc
 	for i := 0; i < nl; i++ {
-		switch g.c(8, "layerkind") {
+		lk := g.c(8, "layerkind")
+		if lk == 6 && g.NoExt {
+			lk = 0
+		}
+		switch lk {
 		case 6: // foreign layer with URLs, not hosted
 			data := g.bytes(1 + g.c(100, "fsize"))
 			mt := lmt
@@ -305,6 +310,9 @@ type Opts struct {
 // Graph generates an image graph with optional referrers and digest-tags.
 func (g *G) Graph(o Opts) *Graph {
 	gr := &Graph{DigestTags: map[string]*Node{}, Alg: g.Alg}
+	if o.NoExternal {
+		g.NoExt = true
+	}
 	docker := g.c(3, "family") == 2
 	switch g.c(5, "shape") {
 	case 0:
